@@ -27,7 +27,7 @@ COMPONENTS = {
     'stub': ['user objective', 'PRNG seam (reports the element random.choice picked)', 'joblib', 'time.time', 'uuid1'],
 }
 PROBES_EXPECTED = ['eq_calls', 'identical', 'all_differ', 'share_some_coordinates', 'share_last_coordinate_only_differ_elsewhere',
-                   'generate_calls', 'rejected_duplicates', 'removals_checked', 'identical_vectors_in_pool', 'derived_pairs', 'dedup_checked']
+                   'generate_calls', 'scripted_generate', 'rejected_duplicates', 'removals_checked', 'identical_vectors_in_pool', 'derived_pairs', 'dedup_checked']
 
 
 def hooks(ctx, w, D):
@@ -114,6 +114,98 @@ def hooks(ctx, w, D):
                               'design there (%r vs %r): set() cannot de-duplicate them' % (x + delta, list(a.vector), hash(b), hash(a)))
                 return
 
+    def scripted_generate(orig, self, parents, key):
+        """generate() once more on the same parents, with a scripted crossover and an identity mutator (both are pluggable
+        attributes of the algorithm) that hand out prepared children: repeats, children within 1e-10 of an accepted one,
+        children a few 1e-10 apart (absolutely, and relative to a large coordinate), clearly distinct ones.  The returned
+        offspring must be exactly what the stated rule accepts - however the library decides "repeated".  The PRNG and the id
+        counter are put back afterwards: the run itself is not disturbed."""
+        from artap.individual import Individual
+        n = len(parents[0].vector)
+        if n == 0:
+            return
+        N = self.options['max_population_size']
+        bases = [[float(x) for x in p.vector] for p in parents[:4]]
+        deltas = (0.0, 4e-11, 3.4e-10, 7e-10, 1e-3)
+        handed = []
+        count = [0]
+
+        def next_pair():
+            t = count[0]
+            count[0] += 1
+            if t < 2 * N:
+                b = bases[D.dec('work', ('sg', key, t, 0), len(bases))]
+                j = D.dec('work', ('sg', key, t, 1), n)
+                k = D.dec('work', ('sg', key, t, 2), len(deltas))
+                sc = max(1.0, abs(b[j]))
+                d = deltas[k] * (sc if k >= 3 else 1.0)
+                if k == 1 and sc > 1e3:
+                    d = 0.0         # 4e-11 is below the resolution of such a coordinate
+                v2 = list(b)
+                v2[j] = b[j] + d
+                pair = (list(b), v2)
+            else:
+                # afterwards clearly distinct children, so that the loop ends
+                b = bases[0]
+                v1, v2 = list(b), list(b)
+                v1[0] = b[0] + (2 * t) * 0.01 * max(1.0, abs(b[0]))
+                v2[0] = b[0] + (2 * t + 1) * 0.01 * max(1.0, abs(b[0]))
+                pair = (v1, v2)
+            handed.append(pair)
+            return list(pair[0]), list(pair[1])
+
+        class Cx:
+            def cross(self_, p1, p2):
+                return next_pair()
+
+        class Mu:
+            def mutate(self_, a, *rest):
+                return a
+
+        rng = seams.RNG
+        saved = (Individual.counter, rng.r.getstate(), rng.draws, rng.extremes, rng.last_sample, rng.last_choice, rng.trace)
+        cx, mu = self.crossover, self.mutator
+        self.crossover, self.mutator = Cx(), Mu()
+        st['in_generate'] += 1          # the == calls inside are judged by the eq hook as duplicate rejections
+        try:
+            out = orig(self, parents)
+        finally:
+            st['in_generate'] -= 1
+            self.crossover, self.mutator = cx, mu
+            Individual.counter = saved[0]
+            rng.r.setstate(saved[1])
+            rng.draws, rng.extremes, rng.last_sample, rng.last_choice, rng.trace = saved[2:]
+        if ctx.violations:
+            return
+        ctx.probe('scripted_generate')
+        flat = [v for pr in handed for v in pr]
+
+        def dist(a, b):
+            return max(abs(x - y) for x, y in zip(a, b))
+        if any(0.6e-10 < dist(a, b) < 2.5e-10 for i, a in enumerate(flat) for b in flat[i + 1:]):
+            return          # a pair too close to the 1e-10 threshold to call
+        ref = []
+        for c1, c2 in handed:
+            if len(ref) >= N:
+                break
+            if len(ref) == 0:
+                ref.append(c1)
+            if not (any(dist(c1, o) < 1e-10 for o in ref) and len(ref) < N):
+                ref.append(c1)
+            if any(dist(c2, o) < 1e-10 for o in ref) and len(ref) < N:
+                pass
+            elif len(ref) < N:
+                ref.append(c2)
+        got = [[float(x) for x in o.vector] for o in out]
+        ctx.check()
+        if got != ref:
+            lost = [v for v in ref if v not in got]
+            extra = [v for v in got if v not in ref]
+            ctx.violation('distinct_rejected' if lost else 'duplicate_accepted', 'GeneticAlgorithm.generate',
+                          'offspring generation over scripted children (population size %d): %d offspring returned, the rule '
+                          '"reject a child only if it coincides with an accepted one to 1e-10" gives %d; distinct children '
+                          'dropped %r, repeated children accepted %r' % (N, len(got), len(ref), lost[:3], extra[:3]))
+
     def generate(orig, self, parents, archive=None):
         from artap.individual import Individual
         st['gen'] = st.get('gen', 0) + 1
@@ -123,6 +215,8 @@ def hooks(ctx, w, D):
                 derived(list(parents), st['gen'])
             finally:
                 Individual.counter = saved
+        if st['gen'] <= 4 and parents and not ctx.violations and st['in_generate'] == 0:
+            scripted_generate(orig, self, list(parents), st['gen'])
         st['in_generate'] += 1
         ctx.probe('generate_calls')
         try:
